@@ -469,7 +469,7 @@ example : (split bar (serveLine 1 3 [116, 99, 112] [58, 49] [103, 114, 112, 99] 
   line_field_count 1 3 _ _ _ _ _ (by decide) (by decide) (by decide) (by decide)
 
 /-- The round trip's hypotheses are satisfiable: a gRPC client insisting on multiplexing, version −3, a base64 certificate. -/
-example : Handshake.start ⟨true, true, 4, 50, 1, true, true⟩ ⟨[2, -3], [Handshake.sGrpc], true, true⟩ Props.C01.extAll
+example : Handshake.start ⟨true, true, 4, 50, 1, true, true, true⟩ ⟨[2, -3], [Handshake.sGrpc], true, true⟩ Props.C01.extAll
     (.line (serveLine 1 (-3) Handshake.sUnix [47, 116] Handshake.sGrpc [77, 73, 73, 66] [116])) =
     .ok ⟨Handshake.sUnix, [47, 116]⟩ Handshake.sGrpc (-3) :=
   print_parse_roundtrip_b64 _ (by decide) _ _ _ _ _ _ _ _ Handshake.sUnix [47, 116] _ (by decide) (by decide)
